@@ -29,7 +29,7 @@ ALL_CLASSES = SCALERS + list(SIMPLE) + FILTERS + IMPUTERS
 
 RANGES = [(0.0, 1.0), (1.0, 2.0), (-1.0, 1.0), (-2.0, -1.0), (0.0, 10.0), (-10.0, -0.5),
           # (pairs that differ only by -1 / -2, whose hashes coincide in CPython, and by int / float spelling)
-          (-2.0, 1.0), (-1.0, 0.0), (-2.0, 0.0), (-1, 1), (0, 1)]
+          (-2.0, 1.0), (-1, 1), (0, 1)]
 
 
 def introspect():
